@@ -5,7 +5,8 @@
    the data length; everything inside its allocation) — both defined in C13/Model.v. *)
 From Coq Require Import List ZArith Bool.
 From TskVerif Require Import Base.Common C13.Model C13.Rep C13.ColsProofs C13.UpdateProofs
-  C13.KeepProofs C13.RefineProofs C13.PackProofs C13.TotalProofs C13.Findings.
+  C13.KeepProofs C13.RefineProofs C13.PackProofs C13.TotalProofs C13.SafeProofs C13.Accessors C13.Findings.
+From TskVerif Require Import Gen.Generated.
 Import ListNotations.
 Open Scope Z_scope.
 
@@ -170,6 +171,57 @@ Theorem c13_parse_cols_lengths : forall d cs n,
   forall data offs, In (Some (data, offs)) (snd cs) -> zlen offs = n + 1 /\ get offs n = Ok (zlen data).
 Proof. exact parse_cols_lengths. Qed.
 
+(* ---- totality / memory safety of the logic: Ok or a documented error code, never an
+   out-of-bounds access (OOB) and never a failed tsk_bug_assert ---- *)
+Theorem c13_add_row_safe : forall d t r,
+  WF d t -> row_ok d r = true -> ok_or overflow_codes (add_row d t r).
+Proof. exact add_row_safe. Qed.
+
+Theorem c13_truncate_total : forall d t m,
+  WF d t -> 0 <= m <= nrows t -> exists t', truncate t m = Ok t'.
+Proof. exact truncate_total. Qed.
+
+Theorem c13_extend_safe : forall d t u idx,
+  WF d t -> WF d u -> ok_or (extend_codes d) (snd (extend d t u idx)).
+Proof. exact extend_safe. Qed.
+
+(* (g) completed: for either variant of the code (pinned / F14-repaired), when the binding's
+   dimension checks pass (parse_cols) the call succeeds IFF check_offsets passes for every
+   supplied column — up to the two size-limit errors *)
+Theorem c13_set_columns_succeeds : forall bchk atomic d t cs n,
+  WF d t -> order_ok d -> td_mdlen_bug d = false ->
+  parse_cols d cs = Ok n -> precheck_offsets n (snd cs) = Ok tt ->
+  ok_or overflow_codes (snd (set_columns_gen bchk atomic d t cs)).
+Proof. exact set_columns_gen_safe. Qed.
+
+Theorem c13_append_columns_succeeds : forall bchk atomic d t cs n,
+  WF d t -> order_ok d -> td_mdlen_bug d = false ->
+  parse_cols d cs = Ok n -> precheck_offsets n (snd cs) = Ok tt ->
+  ok_or overflow_codes (snd (append_columns_gen bchk atomic d t cs)).
+Proof. exact append_columns_gen_safe. Qed.
+
+Theorem c13_columns_success_implies_check_offsets : forall bchk atomic d t cs t' n,
+  order_ok d -> parse_cols d cs = Ok n ->
+  (append_columns_gen bchk atomic d t cs = (t', Ok tt) \/ set_columns_gen bchk atomic d t cs = (t', Ok tt)) ->
+  precheck_offsets n (snd cs) = Ok tt.
+Proof. exact columns_success_checks. Qed.
+
+(* the F14 repair (fixes/C13-F14-atomic-column-setters.diff; variants [_gen true _]): a call
+   whose offsets do not pass check_offsets leaves the table exactly as it was *)
+Theorem c13_repaired_refusal_unchanged : forall atomic d t cs n e,
+  parse_cols d cs = Ok n -> precheck_offsets n (snd cs) = Err e ->
+  set_columns_gen true atomic d t cs = (t, Err e) /\ append_columns_gen true atomic d t cs = (t, Err e).
+Proof. exact repaired_binding_refusal_unchanged. Qed.
+
+(* second half (immutability; runtime monitor, PARTIAL): the aliasing logic of the accessor
+   layer as a checked table regenerated from python/_tskitmodule.c and python/tskit/trees.py
+   (finite: the bound is the table): no array-valued getter of TreeSequence / Tree and no cached
+   array is a writeable view of the object's memory, so a write through any of them leaves
+   the object as it was.  The table is compared with the live objects by family `accessors`. *)
+Theorem c13_no_accessor_is_a_writeable_view : forall name h, In (name, h) all_handouts ->
+  forall (A : Type) (object written : A), object_after_write h object written = object.
+Proof. exact no_accessor_is_a_writeable_view. Qed.
+
 (* ---- historical records about the PINNED (pre-fix) variants of the model ---- *)
 Theorem c13_provenance_getitem_slice_pinned_refuted :
   exists t idx, WF d_provenances t /\ Forall (fun i => 0 <= i < nrows t) idx /\
@@ -186,17 +238,17 @@ Proof. exact site_metadata_offset_length_pinned_refuted. Qed.
 
 Theorem c13_append_columns_not_atomic_refuted :
   exists t cs t', WF d_individuals t /\
-    append_columns d_individuals t cs = (t', Err TSK_ERR_BAD_OFFSET) /\
+    append_columns_gen false false d_individuals t cs = (t', Err TSK_ERR_BAD_OFFSET) /\
     WFb d_individuals t' = false.
 Proof. exact append_columns_not_atomic_refuted. Qed.
 
 Theorem c13_set_columns_failure_clears_refuted :
   exists t cs t', WF d_nodes t /\ abs t <> [] /\
-    set_columns d_nodes t cs = (t', Err TSK_ERR_BAD_OFFSET) /\ abs t' = [].
+    set_columns_gen false false d_nodes t cs = (t', Err TSK_ERR_BAD_OFFSET) /\ abs t' = [].
 Proof. exact set_columns_failure_clears_refuted. Qed.
 
 Theorem c13_site_add_row_after_refused_append_aborts_refuted :
   WF d_sites site_tbl /\
-  snd (append_columns d_sites site_tbl f14_site_cols) = Err TSK_ERR_BAD_OFFSET /\
-  add_row d_sites (fst (append_columns d_sites site_tbl f14_site_cols)) ([3], [[84]; []]) = Err BUG_ASSERT.
+  snd (append_columns_gen false false d_sites site_tbl f14_site_cols) = Err TSK_ERR_BAD_OFFSET /\
+  add_row d_sites (fst (append_columns_gen false false d_sites site_tbl f14_site_cols)) ([3], [[84]; []]) = Err BUG_ASSERT.
 Proof. exact site_add_row_after_refused_append_aborts. Qed.
